@@ -559,13 +559,20 @@ def run_loads_case(case):
     from cobald.daemon.plugins import constraints
 
     recorder = Recorder()
-    first = make_digest("pa", recorder, None)
-    second = make_digest("pb", recorder, None)
+    # which of the three names plays the early / late / unrelated plugin: without the
+    # constraint the order of two plugins follows from their names (set order), so every
+    # assignment is tried
+    early, late, other = case.get("names", ["pa", "pb", "pc"])
+    first = make_digest(early, recorder, None)
+    second = make_digest(late, recorder, None)
     if case["relation"] == "before":
-        first = constraints(before=["pb"])(first)
+        first = constraints(before=[late])(first)
     else:
-        second = constraints(after=["pa"])(second)
-    digests = {"pa": first, "pb": second, "pc": make_digest("pc", recorder, None)}
+        second = constraints(after=[early])(second)
+    digests = {early: first, late: second, other: make_digest(other, recorder, None)}
+    rename = {"pa": early, "pb": late, "pc": other}
+    case = dict(case, installs=[[rename[name] for name in names]
+                                for names in case["installs"]])
     saved = core_config.get_entrypoints
     try:
         for round_index, installed in enumerate(case["installs"]):
@@ -584,22 +591,25 @@ def run_loads_case(case):
             if sorted(order) != sorted(installed):
                 return ("loads:calls", "load %d of %r called %r" % (
                     round_index, case["installs"], order))
-            if "pa" in order and "pb" in order and order.index("pa") > order.index("pb"):
+            if early in order and late in order and order.index(early) > order.index(late):
                 return ("loads:constraint-lost-after-earlier-load",
                         "the digests were loaded with %r installed one after the other; in "
-                        "load %d the call order is %r although pa must precede pb (%s)"
-                        % (case["installs"], round_index, order, case["relation"]))
+                        "load %d the call order is %r although %s must precede %s (%s)"
+                        % (case["installs"], round_index, order, early, late,
+                           case["relation"]))
     finally:
         core_config.get_entrypoints = saved
     return None
 
 
 def loads_cases():
-    for relation in ("before", "after"):
+    for relation, names in itertools.product(
+            ("before", "after"), itertools.permutations(["pa", "pb", "pc"])):
         for installs in ([["pa"], ["pb", "pa"]], [["pb"], ["pb", "pa"]],
                          [["pb", "pa"], ["pb", "pa"]], [["pc"], ["pb", "pc", "pa"]],
                          [["pb", "pa"], ["pa"], ["pb"], ["pb", "pa"]]):
-            yield {"loads": True, "relation": relation, "installs": installs}
+            yield {"loads": True, "relation": relation, "installs": installs,
+                   "names": list(names)}
 
 
 def shard_loads(args):
